@@ -654,9 +654,22 @@ func (w *world) nodeScenario(id int, thorough bool) {
 			keep = 1 + r.Intn(chain.Len())
 		}
 		decided := chain.Prefix(keep - 1)
+		viaHost := r.Intn(2) == 0
+		withCommitments := viaHost && r.Intn(5) == 0
+		if withCommitments {
+			// the supplemental data the committee signed may carry commitments (the node's own proposal leaves
+			// them zero, and so does certchain, which therefore cannot follow such a history); a certificate
+			// must carry exactly what was signed
+			sc := *supp
+			for i := range sc.Commitments {
+				sc.Commitments[i] = byte(r.Intn(256))
+			}
+			supp = &sc
+			s.ccOK = false
+		}
 		cert := s.makeCert(inst, decided, supp, cur, next)
 		var pres string
-		if r.Intn(2) == 0 {
+		if viaHost {
 			// C03: the decision goes through the host's real saveDecision, which derives both committees and the
 			// delta itself, validates the certificate it formed and stores it; the stored certificate must be
 			// the one an independent party computes and must validate against a fresh copy of the same table.
